@@ -21,7 +21,8 @@ def _work(job):
     logging.disable(logging.CRITICAL)
     from . import discovery
     try:
-        return {"ok": True, "run": discovery.run_config(job["frontend"], job["prefix"], job["principal"], job["flags"])}
+        return {"ok": True, "run": discovery.run_config(job["frontend"], job["prefix"], job["principal"], job["flags"],
+                                                        storage=job.get("storage", "tree"))}
     except Exception:
         return {"ok": False, "error": traceback.format_exc()}
 
@@ -42,7 +43,8 @@ def run(prop, tier, seed, replay=None):
     combos = list(itertools.product(["aiohttp", "wsgi"], PREFIXES, PRINCIPALS, range(len(FLAGSEQS))))
     if replay:
         r = json.load(open(replay))["run"]
-        jobs = [{"frontend": r["frontend"], "prefix": r["prefix"], "principal": r["principal"], "flags": r["flags"]}]
+        jobs = [{"frontend": r["frontend"], "prefix": r["prefix"], "principal": r["principal"], "flags": r["flags"],
+                 "storage": r.get("storage", "tree")}]
     else:
         if quick:
             # every front end x prefix x principal once, flag sequences rotated; plus every flag
@@ -55,6 +57,11 @@ def run(prop, tier, seed, replay=None):
                     picked.append((f, PREFIXES[(k + 1) % len(PREFIXES)], PRINCIPALS[k % 4], k))
             combos = sorted(set(picked))
         jobs = [{"frontend": f, "prefix": p, "principal": pr, "flags": FLAGSEQS[k]} for (f, p, pr, k) in combos]
+        # some deployments: the default calendar is converted to a bare repository between two
+        # lifetimes (sequences with a later start, in particular one with --defaults)
+        for j, (f, p, pr, k) in enumerate(combos):
+            if len(FLAGSEQS[k]) >= 2 and (j % 3 == 0 or not quick):
+                jobs.append({"frontend": f, "prefix": p, "principal": pr, "flags": FLAGSEQS[k], "storage": "bare"})
     with multiprocessing.get_context("fork").Pool(12) as pool:
         outs = pool.map(_work, jobs, chunksize=1)
     runs = []
